@@ -64,8 +64,10 @@ def translate_and_prove(pid, log):
         cls = CLASS_OF[v]
         c = info.get("classes", {}).get(cls)
         r = {"class": cls, "translated": (c or {}).get("translated", []), "module": "Cvss.Props.CodeTie" + v}
-        r["modules"] = [r["module"]] + ([r["module"] + "Final"] if os.path.exists(
-            os.path.join(LEAN, "Cvss", "Props", "CodeTie%sFinal.lean" % v)) else [])
+        # CodeTieN.lean plus its companions (CodeTieNCtor, CodeTieNFinal, ...): all declare into namespace CodeTieN
+        r["modules"] = [r["module"]] + sorted(
+            "Cvss.Props." + fn[:-5] for fn in os.listdir(os.path.join(LEAN, "Cvss", "Props"))
+            if fn.startswith("CodeTie%s" % v) and fn.endswith(".lean") and fn != "CodeTie%s.lean" % v)
         if c is None:
             r.update(status="untranslated", detail="translator did not run: " + str(info.get("crash", ""))[:300])
         elif c["untranslated"]:
